@@ -276,10 +276,10 @@ def generate(rng, tier):
             data += bytes(b)
         data += rbytes(rng, rng.choice([0, 0, 1, 7, 8, 20]))
         first = SLOT_NUM[seq[0]] if seq and rng.random() < 0.9 else rng.choice(ALPHA)
-        yield Case(["ext.from_slice\t%d\t%s" % (first, hx(data))], {"k": "slice", "stream": "structured"})
+        yield Case(["ext.from_slice\t%d\t%s" % (first, hx(data)), "ext.from_slice_lax\t%d\t%s" % (first, hx(data))], {"k": "slice", "stream": "structured"})
         if it % (6 if quick else 3) == 0 and len(data) <= 120:
             for cut in range(len(data)):
-                yield Case(["ext.from_slice\t%d\t%s" % (first, hx(data[:cut]))], {"k": "slice", "stream": "structured-truncated"})
+                yield Case(["ext.from_slice\t%d\t%s" % (first, hx(data[:cut])), "ext.from_slice_lax\t%d\t%s" % (first, hx(data[:cut]))], {"k": "slice", "stream": "structured-truncated"})
         if it % 4 == 0:
             yield Case(["ext.v4.from_slice\t%d\t%s" % (rng.choice([51, 51, first]), hx(data[: rng.randrange(len(data) + 1)]))], {"k": "slice", "stream": "structured-v4"})
     for _ in range(1500 if quick else 30000):
@@ -288,7 +288,8 @@ def generate(rng, tier):
         if n >= 2 and rng.random() < 0.7:
             data[0] = rng.choice(ALPHA)
             data[1] = rng.choice([0, 0, 1, 2, 3, 0xFF])
-        yield Case(["ext.from_slice\t%d\t%s" % (rng.choice(ALPHA), hx(data))], {"k": "slice", "stream": "malformed"})
+        f0 = rng.choice(ALPHA)
+        yield Case(["ext.from_slice\t%d\t%s" % (f0, hx(data)), "ext.from_slice_lax\t%d\t%s" % (f0, hx(data))], {"k": "slice", "stream": "malformed"})
         yield Case(["ext.v4.from_slice\t%d\t%s" % (rng.choice([51, 51, 0, 17]), hx(data))], {"k": "slice", "stream": "malformed-v4"})
 
 
@@ -308,6 +309,7 @@ def is_trivial(c):
 
 _OK = re.compile(r"^ok\((.*)\)$")
 _FS = re.compile(r"^ok\((.*),next=(\d+),rest=\((\d+),(\d+)\),header_len=(\d+)\)$")
+_LAX = re.compile(r"^\((.*),next=(\d+),rest=\((\d+),(\d+)\),header_len=(\d+),err=(.*)\)$")
 _WERR = re.compile(r"^err\((HopByHopNotAtStart|ExtNotReferenced\((\d+)\)),written=([0-9a-f-]+)\)$")
 _NERR = re.compile(r"^err\((HopByHopNotAtStart|ExtNotReferenced\((\d+)\))\)$")
 
@@ -554,6 +556,26 @@ def _oracle_slice(c, out):
             out.append(("decode-window", {"got": r[-80:], "input_len": n}))
     elif not r.startswith("err("):
         out.append(("malformed-impl-output", {"impl": c.impl}))
+    if len(c.lines) > 1:
+        # from_slice_lax on the same input: same struct / number / rest when strict succeeds, the
+        # strict error (plus a layer) next to a decoded prefix when strict fails
+        lx = c.impl[1]
+        if _bad(lx):
+            out.append(("no-panic", {"impl": c.impl, "line": c.lines[1][:200]}))
+            return
+        ml = _LAX.match(lx)
+        if not ml:
+            out.append(("malformed-impl-output", {"impl": c.impl}))
+            return
+        off, ln, hl = int(ml.group(3)), int(ml.group(4)), int(ml.group(5))
+        if off + ln != n or hl != off:
+            out.append(("decode-window", {"got": lx[-120:], "input_len": n}))
+        if m:
+            if ml.group(6) != "none" or (ml.group(1), ml.group(2), ml.group(3), ml.group(4)) != (m.group(1), m.group(2), m.group(3), m.group(4)):
+                out.append(("lax-extends-strict", {"strict": r[-160:], "lax": lx[-160:]}))
+        else:
+            if not ml.group(6).startswith("some(" + r[4:-1] + ","):
+                out.append(("lax-extends-strict", {"strict": r[-160:], "lax": lx[-160:]}))
 
 
 def oracle(c):
@@ -641,6 +663,8 @@ _HINT = {
     "rfc8200-order": ["link_then_walk"],
     "rfc8200-links": ["link_then_walk"],
     "ether-type-of-version": ["ether_type_of_version"],
+    "lax-extends-strict": ["lax_extends_strict"],
+    "decode-window": ["from_slice_window"],
 }
 
 
